@@ -296,13 +296,19 @@ pub fn c10_script(r: &mut Rng, _index: u64, _tier: Tier) -> (CaseCfg, Vec<Step>)
 /// is tiny (2..8 bytes), on a fresh or on a resumed connection.
 pub fn c14_script(r: &mut Rng, _index: u64, _tier: Tier) -> (CaseCfg, Vec<Step>) {
     use crate::refcodec::SPacket;
-    let cfg = CaseCfg { rx: 128, tx: 512, keepalive: 0, ..CaseCfg::default() };
+    let mut cfg = CaseCfg { rx: 128, tx: 512, keepalive: 0, ..CaseCfg::default() };
     let mps = 2 + r.below(7) as u32;
     let tiny = vec![Prop::MaximumPacketSize(mps)];
     let pid = *r.pick(&[1u16, 7, 255, 256, 65535]);
     let publish = |qos: u8, dup: bool| Step::Broker(BrokerAct::Send(SPacket::Publish { dup, qos, retain: false, topic: "m".into(), pid: Some(pid), props: vec![], payload: vec![9, 9] }));
     let mut s = vec![];
-    match r.below(6) {
+    match r.below(7) {
+        // the client's own limit: receive buffers on both sides of 64 KiB are advertised exactly
+        6 => {
+            cfg.rx = *r.pick(&[65_535usize, 65_536, 65_537, 70_000, 131_072]);
+            s.push(connect_with(SpMode::Force(false), AckMode::Immediate, vec![]));
+            s.push(Step::Broker(BrokerAct::Send(SPacket::Publish { dup: false, qos: 0, retain: false, topic: "big".into(), pid: None, props: vec![], payload: vec![7; *r.pick(&[10usize, 65_000])] })));
+        }
         // first delivery of a QoS 1 / QoS 2 publish under the tiny limit
         0 => {
             s.push(connect_with(SpMode::Force(false), AckMode::Immediate, tiny));
@@ -356,5 +362,56 @@ pub fn c14_script(r: &mut Rng, _index: u64, _tier: Tier) -> (CaseCfg, Vec<Step>)
     // whatever happened, further calls must agree with the handle's state
     s.push(pub1("after", 2, 0));
     s.push(poll0());
+    (cfg, s)
+}
+
+
+/// Eight QoS 2 exchanges wait for PUBCOMP (all local slots used) under a broker window that is
+/// larger than that; further requests must be refused; afterwards the identifier counter is
+/// placed right on the identifiers just used.
+pub fn saturation_script(r: &mut Rng, _index: u64, _tier: Tier) -> (CaseCfg, Vec<Step>) {
+    let cfg = CaseCfg { rx: 128, tx: 2048, keepalive: 0, ..CaseCfg::default() };
+    let mut props = vec![];
+    if let Some(rm) = *r.pick(&[None, None, Some(9u16), Some(20), Some(8), Some(65535)]) {
+        props.push(Prop::ReceiveMaximum(rm));
+    }
+    let mut s = vec![connect_with(SpMode::Force(false), AckMode::Hold, props.clone())];
+    let n2 = *r.pick(&[8usize, 8, 7]);
+    for k in 0..n2 {
+        s.push(pubq(2, "sat", k as u32 + 1, 2));
+    }
+    for _ in n2..8 {
+        s.push(pub1("sat1", 30, 2));
+    }
+    // PUBRECs arrive, PUBRELs go out, PUBCOMPs are withheld
+    s.push(Step::Broker(BrokerAct::Release { n: 99, order: Order::Fifo }));
+    for _ in 0..20 {
+        s.push(poll0());
+    }
+    // more requests than the local window holds
+    for k in 0..r.range(1, 4) {
+        s.push(match r.below(3) {
+            0 => pub1("over1", 40 + k as u32, 1),
+            _ => pubq(2, "over2", 40 + k as u32, 1),
+        });
+        // whatever the broker owes for it arrives at once
+        s.push(Step::Broker(BrokerAct::Release { n: 1, order: Order::Lifo }));
+        s.push(poll0());
+        s.push(poll0());
+    }
+    if r.chance(1, 2) {
+        // a new connection of the same session with the counter back on the identifiers in use
+        s.push(Step::DropConn);
+        s.push(Step::SetNextPid(*r.pick(&[8u16, 9, 10])));
+        s.push(connect_with(SpMode::Force(true), AckMode::Hold, props));
+        s.push(poll0());
+        s.push(Step::Subscribe(SubSpec { filters: vec![FilterSpec { filter: "sat/#".into(), max_qos: 0, no_local: false, rap: false, rh: 0 }], props: vec![], cancel_at: None }));
+        s.push(Step::Unsubscribe(UnsubSpec { filters: vec!["sat".into()], props: vec![], cancel_at: None }));
+        s.push(poll0());
+    }
+    s.push(Step::Broker(BrokerAct::Release { n: 99, order: Order::Fifo }));
+    for _ in 0..24 {
+        s.push(poll0());
+    }
     (cfg, s)
 }
